@@ -2362,6 +2362,11 @@ class SymEx:
         if fv == ('ext', 'builtins.getattr') and len(args) == 2 and not kws and args[1][0] == 'str' and len(e.args) == 2 and args[1][1].isidentifier():
             # getattr(x, 'name') is x.name
             return self.ev(ast.copy_location(ast.Attribute(value=e.args[0], attr=args[1][1], ctx=ast.Load()), e), st)
+        if fv == ('ext', 'builtins.setattr') and len(args) == 3 and not kws and args[1][0] == 'str' and len(e.args) == 3 and args[1][1].isidentifier() \
+                and not any(isinstance(a_, ast.Starred) for a_ in e.args):
+            # setattr(x, 'name', v) is x.name = v
+            tgt = ast.copy_location(ast.Attribute(value=e.args[0], attr=args[1][1], ctx=ast.Store()), e)
+            return [(self.assign(tgt, args[2], st, e), NONE)]
         if fv[0] == 'ext' and fv[1].startswith('operator.') and not kws:
             opn = fv[1][9:].strip('_')
             bin_ = {'add': ast.Add, 'sub': ast.Sub, 'mul': ast.Mult, 'truediv': ast.Div, 'floordiv': ast.FloorDiv, 'mod': ast.Mod, 'pow': ast.Pow}
